@@ -255,7 +255,8 @@ example : spec [.dial 0, .use 0 1, .wr 0 1, .ret 1 .ctx, .rd 0 1, .use 0 2, .wr 
 /-- tie (pinned source facts): who calls `releaseConn` (the worker goroutine of
     `exchangeConnCtx` and the dial goroutine, nobody else), nobody else inserts into
     `idleConns`, `enterIdle` precedes the insertion, the retry condition, the closed check in
-    `exitIdle`, the worker's private copy of the payload, the idle timer's test. -/
+    `exitIdle`, the worker's private copy of the payload, the idle timer's test, both reads of
+    `ReadMsgFromTCP` are `io.ReadFull`. -/
 theorem pins :
     Facts.reuse_retryCond = "!isNewConn && retry <= 5 && !ctxIsDone(ctx)" ∧
     Facts.reuse_relCallsWorker = 1 ∧ Facts.reuse_relCallsDial = 1 ∧ Facts.reuse_relCallsExchange = 0 ∧
@@ -273,6 +274,7 @@ theorem pins :
     Facts.reuse_closeIfIdleBody = "{ c.m.Lock() serving := c.serving if !serving { c.closed = true defer c.c.Close() } c.m.Unlock() }" ∧
     Facts.reuse_exchangeConnWrite = "_, err := c.c.Write(payload)" ∧
     Facts.reuse_exchangeConnRead = "r, _, err := dnsutils.ReadMsgFromTCP(c.c)" ∧
+    Facts.reuse_readFullCalls = 2 ∧
     Facts.reuse_queryTimeout = 6000000000 := by
   (repeat' apply And.intro) <;> rfl
 
